@@ -301,6 +301,9 @@ def exec_image(image, name, fast_load, get_code, count_steps, tag="r", kind="fil
 
 
 def _compact(plan, rec):
+    if rec.get("violation") is not None and plan.control:
+        rec = dict(rec)
+        rec["violation"] = dict(rec["violation"], control=True)
     return {
         "i": plan.index,
         "k": list(plan.key_kinds()),
@@ -684,7 +687,8 @@ def signature(v):
     if v.get("in_sequence"):
         return {"class": c, "in_sequence": True}
     if c in ("crash", "memory"):
-        return {"class": c, "fast_path": bool(v.get("fast_path"))}
+        # control = the stored file was valid: a valid file that kills the interpreter is never the known finding
+        return {"class": c, "fast_path": bool(v.get("fast_path")), "control": bool(v.get("control"))}
     if c in ("not_prompt", "stall"):
         return {"class": c}
     if c in ("fs_write", "compile", "exec", "import", "side_effect"):
